@@ -9,6 +9,8 @@
 #![allow(dead_code)]
 mod clock;
 mod common;
+mod e1j;
+mod e1j_model;
 mod e1u;
 mod e1u_model;
 mod engine;
@@ -27,12 +29,14 @@ use std::time::Instant;
 #[derive(Clone, Copy, Debug, PartialEq)]
 pub enum Eng {
     E1U,
+    E1J,
 }
 
 impl Eng {
     fn from_name(s: &str) -> Option<Eng> {
         match s {
             "e1-uist" => Some(Eng::E1U),
+            "e1-jura" => Some(Eng::E1J),
             _ => None,
         }
     }
@@ -45,6 +49,10 @@ macro_rules! with_engine {
                 let $e = &e1u::E1U;
                 $body
             }
+            Eng::E1J => {
+                let $e = &e1j::E1J;
+                $body
+            }
         }
     };
 }
@@ -52,7 +60,10 @@ macro_rules! with_engine {
 /// (engine, runs in the quick tier, runs in the thorough tier)
 fn plan(prop: &str) -> Vec<(Eng, u64, u64)> {
     match prop {
-        "C01" | "C02" | "C03" | "C07" | "C08" | "C17" => vec![(Eng::E1U, 120_000, 4_000_000)],
+        "C02" => vec![(Eng::E1U, 200_000, 6_000_000)],
+        "C18" => vec![(Eng::E1J, 200_000, 6_000_000)],
+        "C01" | "C03" | "C07" | "C17" => vec![(Eng::E1U, 120_000, 3_000_000), (Eng::E1J, 120_000, 3_000_000)],
+        "C08" => vec![(Eng::E1U, 60_000, 1_500_000), (Eng::E1J, 60_000, 1_500_000)],
         _ => vec![],
     }
 }
@@ -377,7 +388,7 @@ fn cmd_determinism(args: &[String]) {
     let seeds: u64 = arg_val(args, "--seeds").and_then(|s| s.parse().ok()).unwrap_or(2000);
     let jobs: usize = arg_val(args, "--jobs").and_then(|s| s.parse().ok()).unwrap_or(16);
     let base: u64 = arg_val(args, "--seed").and_then(|s| s.parse().ok()).unwrap_or(1);
-    let engines = [Eng::E1U];
+    let engines = [Eng::E1U, Eng::E1J];
     for eng in engines {
         let next = std::sync::atomic::AtomicU64::new(0);
         let results = std::sync::Mutex::new(Vec::<(u64, u64, u64)>::new());
